@@ -746,6 +746,49 @@ def jsonable(v):
     return v
 
 
+_VARS_CACHE = {}
+
+
+def term_vars(e):
+    """frozenset of names of the uninterpreted constants in term e."""
+    k = e.get_id()
+    r = _VARS_CACHE.get(k)
+    if r is not None and r[0].eq(e):
+        return r[1]
+    out = set()
+    seen = set()
+    stack = [e]
+    while stack:
+        t = stack.pop()
+        i = t.get_id()
+        if i in seen:
+            continue
+        seen.add(i)
+        if z3.is_const(t):
+            if t.decl().kind() == z3.Z3_OP_UNINTERPRETED:
+                out.add(t.decl().name())
+        else:
+            stack.extend(t.children())
+    r = frozenset(out)
+    if len(_VARS_CACHE) > 200000:
+        _VARS_CACHE.clear()
+    _VARS_CACHE[k] = (e, r)
+    return r
+
+
+class MergedModel:
+    """Model of a cone-of-influence query, completed with the path model for
+    the variables outside the cone (disjoint variable sets)."""
+
+    def __init__(self, cone_model, cone_vars, path_model):
+        self.m1, self.vs, self.m0 = cone_model, cone_vars, path_model
+
+    def eval(self, e, model_completion=True):
+        if self.m0 is None or term_vars(e) <= self.vs:
+            return self.m1.eval(e, model_completion=model_completion)
+        return self.m0.eval(e, model_completion=model_completion)
+
+
 class PathCtx:
     def __init__(self, explorer, trail):
         self.ex = explorer
@@ -995,18 +1038,22 @@ class PathCtx:
             rec[1] += 1
             return True
         neg = z3.Not(formula)
-        old_to = ex.branch_timeout_ms
-        self.solver.set('timeout', ex.prove_timeout_ms)
-        try:
-            self.solver.push()
-            self.solver.add(neg)
-            r = self._check()
-            m = self.solver.model() if r == z3.sat else None
-            self.solver.pop()
-        finally:
-            self.solver.set('timeout', old_to)
-        if r == z3.unknown:
+        r = z3.unknown
+        if ex.nonlinear:
             r, m = self._fresh_check(neg)
+        if r == z3.unknown:
+            old_to = ex.branch_timeout_ms
+            self.solver.set('timeout', ex.prove_timeout_ms)
+            try:
+                self.solver.push()
+                self.solver.add(neg)
+                r = self._check()
+                m = self.solver.model() if r == z3.sat else None
+                self.solver.pop()
+            finally:
+                self.solver.set('timeout', old_to)
+            if r == z3.unknown and not ex.nonlinear:
+                r, m = self._fresh_check(neg)
         if r == z3.unsat:
             st.discharged += 1
             rec[1] += 1
@@ -1030,28 +1077,55 @@ class PathCtx:
         s.add(neg)
         return s.to_smt2()
 
+    def _cone(self, neg):
+        """Path-condition conjuncts in the cone of influence of ``neg``
+        (transitively sharing variables).  The rest of the path condition is
+        satisfiable (the path is feasible) and variable-disjoint, so the
+        verdict of the reduced query is the verdict of the full one."""
+        vs = set(term_vars(neg))
+        rest = [(f, term_vars(f)) for f in self.pc]
+        sel = []
+        changed = True
+        while changed:
+            changed = False
+            keep = []
+            for (f, fv) in rest:
+                if fv & vs:
+                    sel.append(f)
+                    if not fv <= vs:
+                        vs |= fv
+                        changed = True
+                else:
+                    keep.append((f, fv))
+            rest = keep
+        return sel, frozenset(vs)
+
     def _fresh_check(self, neg):
         st = self.ex.stats
-        best = (z3.unknown, None)
+        sel, vs = self._cone(neg)
         for mk in (lambda: z3.Solver(),
-                   lambda: z3.Tactic('qfnra-nlsat').solver(),
-                   lambda: z3.SolverFor('QF_NRA')):
+                   lambda: z3.Tactic('qfnra-nlsat').solver()):
             try:
                 s = mk()
-                s.set('timeout', self.ex.prove_timeout_ms * 2)
-                s.add(*self.pc)
+                s.set('timeout', self.ex.prove_timeout_ms)
+                s.add(*sel)
                 s.add(neg)
                 t0 = time.perf_counter()
                 r = s.check()
                 st.solver_time += time.perf_counter() - t0
                 st.solver_calls += 1
                 if r == z3.sat:
-                    return r, s.model()
+                    pm = None
+                    try:
+                        pm = self._ensure_model()
+                    except PathAbort:
+                        pm = None
+                    return r, MergedModel(s.model(), vs, pm)
                 if r == z3.unsat:
                     return r, None
             except z3.Z3Exception:
                 continue
-        return best
+        return z3.unknown, None
 
     def witness(self, m=None):
         m = m or self._ensure_model()
@@ -1107,7 +1181,7 @@ class Explorer:
     def __init__(self, config_name='', config_params=None, branch_timeout_ms=20000,
                  prove_timeout_ms=60000, max_fanout=64, max_paths=None,
                  max_cex=5, split_depth=None, prefix=None, dump_smt=0,
-                 witness_every=0, seed=0):
+                 witness_every=0, seed=0, nonlinear=False):
         self.config_name = config_name
         self.config_params = config_params or {}
         self.branch_timeout_ms = branch_timeout_ms
@@ -1130,6 +1204,7 @@ class Explorer:
         self.reset_hooks = []
         self.truncated = False
         self.seed = seed
+        self.nonlinear = nonlinear
 
     def run(self, fn):
         global _CTX
